@@ -640,3 +640,103 @@ def c17_to_bytes_fresh(run):
 
 def _c(x):
     return x
+
+
+class NCPoly:
+    """Element of the free (non-commutative) semiring N<atoms>: dict ordered-monomial -> natural coefficient."""
+
+    def __init__(self, t):
+        self.t = {m: c for m, c in t.items() if c}
+
+    @staticmethod
+    def atom(n):
+        return NCPoly({(n,): 1})
+
+    def __pyvc_binop__(self, interp, op, other, reflected, node):
+        if not isinstance(other, NCPoly):
+            raise I.OutOfSubset("NCPoly with " + type(other).__name__)
+        a, b = (other, self) if reflected else (self, other)
+        if isinstance(op, ast.Add):
+            r = dict(a.t)
+            for m, c in b.t.items():
+                r[m] = r.get(m, 0) + c
+            return NCPoly(r)
+        if isinstance(op, ast.Mult):
+            r = {}
+            for m1, c1 in a.t.items():
+                for m2, c2 in b.t.items():
+                    r[m1 + m2] = r.get(m1 + m2, 0) + c1 * c2
+            return NCPoly(r)
+        raise I.OutOfSubset("operator on semiring element")
+
+    def __eq__(self, other):
+        return isinstance(other, NCPoly) and self.t == other.t
+
+    def __hash__(self):
+        return hash(frozenset(self.t.items()))
+
+    def __repr__(self):
+        return " + ".join((f"{c}*" if c != 1 else "") + (".".join(m) or "1") for m, c in sorted(self.t.items())) or "0"
+
+
+def c15_closure_step(run):
+    """C15/linear.WeightedGraph._closure/elimination-order: on a 2- and 3-node block with symbolic entries of a NON-commutative
+    semiring, the real loop computes  new[i,k] = old[i,k] + old[i,j] * star(old[j,j]) * old[j,k]  (factors in path order)."""
+    name = "C15/linear.WeightedGraph._closure/elimination-order"
+    fn = source.find(LIN, "WeightedGraph._closure")
+
+    class Chart:
+        def __init__(self, d=None):
+            self.d = dict(d or {})
+
+        def __pyvc_getitem__(self, interp, k, node):
+            return self.d.get(k, NCPoly({}))
+
+        def __pyvc_setitem__(self, interp, k, v):
+            self.d[k] = v
+
+        def __pyvc_getattr__(self, interp, nm, node):
+            if nm == "copy":
+                return I.Native("copy", lambda i2, a, k: Chart(self.d))
+            if nm == "clear":
+                return I.Native("clear", lambda i2, a, k: self.d.clear())
+            raise I.OutOfSubset("chart." + nm)
+
+    def star(x):
+        return NCPoly.atom("star(" + repr(x) + ")")
+
+    def reference(E, N):
+        old = dict(E)
+        g = lambda d, k: d.get(k, NCPoly({}))    # noqa: E731
+        mul = lambda a, b: a.__pyvc_binop__(None, ast.Mult(), b, False, None)   # noqa: E731
+        add = lambda a, b: a.__pyvc_binop__(None, ast.Add(), b, False, None)    # noqa: E731
+        for j in N:
+            s = star(g(old, (j, j)))
+            new = {}
+            for i in N:
+                for k in N:
+                    new[i, k] = add(g(old, (i, k)), mul(mul(g(old, (i, j)), s), g(old, (j, k))))
+            old = new
+        for i in N:
+            old[i, i] = add(g(old, (i, i)), NCPoly({(): 1}))
+        return old
+
+    try:
+        for N in (["p", "q"], ["p", "q", "r"]):
+            E = {(a, b): NCPoly.atom(f"e_{a}{b}") for a in N for b in N}
+            it = I.Interp(I.Path([]))
+            selfobj = Bag(E=Chart(E), WeightType=Bag(star=I.Native("star", lambda i2, a, k: star(a[0])), one=NCPoly({(): 1}),
+                                                      chart=I.Native("chart", lambda i2, a, k: Chart())))
+            fobj = I.FuncObj(fn, I.Env(None, {}), "WeightedGraph._closure")
+            got = it.call_func(fobj, [selfobj, "A", list(N)], {})
+            want = reference(E, N)
+            gd = got.d if isinstance(got, Chart) else got
+            for k in want:
+                if not (gd.get(k) == want[k]):
+                    run.obligation(name, "refuted", role=AUX, backend="free non-commutative semiring", detail=f"|N|={len(N)}: entry {k} is {gd.get(k)!r}, Lehmann's elimination gives {want[k]!r}",
+                                   replay=dict(replayed=False, entry=str(k)), signature="_closure:elimination-order")
+                    return
+    except (I.OutOfSubset, I.PyRaise) as e:
+        run.obligation(name, "out-of-subset", role=AUX, detail=str(e))
+        return
+    run.obligation(name, "proved", role=AUX, backend="free non-commutative semiring", detail="2- and 3-node blocks with symbolic non-commuting entries: the result is Lehmann's elimination with factors in path order, plus the identity")
